@@ -3,6 +3,11 @@
 # kind: rapid (default) | exhaustive | plain
 # quick/thorough: checks = total rapid cases over all shards; shards = processes; timeout = seconds per shard
 PARTS = {
+    "C04": [
+        {"test": "TestVfC04Verdicts",
+         "quick": {"checks": 3000, "shards": 4, "timeout": 600},
+         "thorough": {"checks": 200000, "shards": 16, "timeout": 2400}},
+    ],
     "C19": [
         {"test": "TestVfC19Trace",
          "quick": {"checks": 3000, "shards": 4, "timeout": 600},
@@ -89,6 +94,15 @@ PARTS = {
 LEVEL = {}  # default: exploration
 
 RULES = {
+    "C04": "direct-driven gossipsub node with scoring (invalid-delivery counters observable), 1-5 scripted validators (default / topic A / "
+           "topic B, inline / asynchronous, optional timeout), 1-3 validation workers, optional tiny throttles (global, per validator, "
+           "queue); 1-4 messages per case, local or remote, on topic A or B, with a per-validator verdict in {Accept, Reject, Ignore, 7, "
+           "-1, -5} and virtual completion delay, 0-3 duplicate copies from other peers at offsets during and after validation, optionally "
+           "a second message on the other topic in the same RPC. Oracle through counting wrappers: delivered/forwarded iff every "
+           "applicable validator ran exactly once and accepted; a returned Reject => dropped and every forwarder's counter rose by 1..copies; "
+           "no Reject => no counter moved; validators of the other topic never run; skipped validators only where throttling is possible; "
+           "local failure => Publish error and nothing leaves the node. Non-trivial: >= 2 validators with different verdicts, duplicates in "
+           "flight, or throttling possible. Distinct = case JSON.",
     "C19": "direct-driven node under floodsub, randomsub and gossipsub with an in-memory tracer teed into the JSON and protobuf file tracers; "
            "histories (<= 50 ops, <= 6 peers, outbound queues of 1-3 left undrained or 64 drained) of arrivals, departures, remote "
            "subscribe/unsubscribe/GRAFT/PRUNE, subscribe/cancel, relay/relay-cancel, heartbeats, local and batch publishes, remote "
@@ -211,6 +225,13 @@ ASSUMPTIONS = {
 HOOK_COMMITS = ["407c3ed", "8f1d1a5"]
 
 META = {
+    "C04": {
+        "text": "Property-based testing over verdict vectors x validator placements x completion orders x duplicate arrival offsets with a "
+                "decision-table oracle observed through counting wrappers and score counters; finds precedence mistakes, unknown verdicts "
+                "treated as accept, wrong or missing penalties, validator mix-ups between topics.",
+        "note": "Schedules are those the runtime produces under the virtual clock with generated delays; throttled outcomes are only constrained, not predicted.",
+        "technique": "property-based testing (rapid) with decision-table oracle under testing/synctest",
+    },
     "C19": {
         "text": "Stateful property-based testing with a trace-replay oracle (round trip trace -> rebuilt state, trace files -> events) under "
                 "all three routers; finds wrong, missing or doubled events at any traced call site and encoder field loss.",
